@@ -360,6 +360,11 @@ def c03_family(tier, n):
     out.append(timely(scn('rejoin2+skip-after', fs)))
 
     # join of independent sources
+    # ... the source with a topic mapping listed FIRST, a subscribe-all source after it (a mapping belongs to its own source only)
+    for p1, p2 in [(0, 0), (0, 30)]:
+        out.append(timely(scn(f'join2-mapped-first/{p1}/{p2}', [src(n, 's1', period=p1, required='snk'), src(n, 's2', period=p2, required='snk', topics=['main', 'aux']),
+                                                                sink('snk', ['s2;main>other;aux', 's1'])])))
+
     for p1, p2 in [(0, 0), (0, 30), (150, 0), (0, 250), (450, 0)]:
         out.append(timely(scn(f'join2/{p1}/{p2}', [src(n, 's1', period=p1, required='snk'), src(n, 's2', period=p2, required='snk', topics=['main', 'aux']),
                                                    sink('snk', ['s1', 's2;main>other;aux'])])))
